@@ -573,6 +573,9 @@ func (r *Run) RejectedValid(upseid uint64) {
 // TaintRun attributes later discrepancies on objects shared between sessions to
 // a trigger that concerns no live session (e.g. a refused establishment).
 func (r *Run) TaintRun(trigger string) {
+	if trigger == "up4-refused-establishment" {
+		r.refusedEst = true
+	}
 	if r.sharedTaint == "" {
 		r.sharedTaint = trigger
 	}
